@@ -16,6 +16,7 @@ package antlr
 
 import (
 	"fmt"
+	"math"
 	"github.com/rs/zerolog"
 	"github.com/sirupsen/logrus"
 	"go.uber.org/zap"
@@ -883,6 +884,13 @@ func (thisListener *GruleV3ParserListener) ExitIntegerLiteral(ctx *grulev3.Integ
 	receiver, ok := thisListener.Stack.Peek().(ast.IntegerLiteralReceiver)
 	if !ok {
 		thisListener.StopParse = true
+
+		return
+	}
+	if _, isSalience := receiver.(*ast.Salience); isSalience && (lit.Integer < math.MinInt32 || lit.Integer > math.MaxInt32) {
+		// report the range error like every other literal error instead of letting Salience panic
+		thisListener.StopParse = true
+		thisListener.ErrorCallback.AddError(fmt.Errorf("salience value %d is out of the 32 bit range", lit.Integer))
 
 		return
 	}
